@@ -140,7 +140,8 @@ class SimCommunicator(kiwipy.CommunicatorHelper):
                     reply.set_exception(kiwipy.UnroutableError(f"Unknown rpc recipient '{recipient_id}'"))
                 return
             try:
-                result = subscriber(self, msg)
+                with self.loop.foreign_thread():  # in production this call happens in the communicator's thread
+                    result = subscriber(self, msg)
             except Exception as exc:  # noqa: BLE001 - goes back to the caller as a RemoteException
                 if not reply.done():
                     reply.set_exception(kiwipy.RemoteException(str(exc)))
@@ -168,7 +169,8 @@ class SimCommunicator(kiwipy.CommunicatorHelper):
                 return
             for subscriber in list(self._broadcast_subscribers.values()):
                 try:
-                    subscriber(self, body=body, sender=sender, subject=subject, correlation_id=correlation_id)
+                    with self.loop.foreign_thread():
+                        subscriber(self, body=body, sender=sender, subject=subject, correlation_id=correlation_id)
                 except Exception:  # noqa: BLE001 - as kiwipy: logged, other subscribers still get it
                     pass
 
@@ -185,7 +187,8 @@ class SimCommunicator(kiwipy.CommunicatorHelper):
             self.task_deliveries.append(task)
             for subscriber in list(self._task_subscribers.values()):
                 try:
-                    result = subscriber(self, task)
+                    with self.loop.foreign_thread():
+                        result = subscriber(self, task)
                 except kiwipy.TaskRejected:
                     continue
                 except Exception:  # noqa: BLE001
